@@ -280,7 +280,10 @@ class ExprMixin:
             type_tuple = isinstance(val, ast.Tuple) and val.elts and all(
                 isinstance(e_, (ast.Name, ast.Attribute)) and (dotted(e_) or '').split('.')[-1] in _TYPE_NAMES
                 for e_ in val.elts)                 # _NUMBERS = (int, float, np.number): the second argument of isinstance
-            if _constant_expr(val) or int_tuple or type_tuple or (getattr(self, 'literal_tables', False) and isinstance(val, (ast.Dict, ast.Tuple, ast.List, ast.Set, ast.DictComp, ast.ListComp))
+            pkg_tuple = isinstance(val, (ast.Tuple, ast.List)) and val.elts and all(
+                isinstance(e_, ast.Attribute) and isinstance(e_.value, ast.Name) and e_.value.id == 'lentil' for e_ in val.elts)
+            #                                             _ALLOWED = (lentil.none, lentil.pupil, lentil.image): package constants
+            if _constant_expr(val) or int_tuple or type_tuple or pkg_tuple or (getattr(self, 'literal_tables', False) and isinstance(val, (ast.Dict, ast.Tuple, ast.List, ast.Set, ast.DictComp, ast.ListComp))
                                        and _table_expr(val)):
                 # a module constant derived from literals and other constants (e.g. -2j*pi): its value
                 prev, self.cur = self.cur, _ModuleScope(m, self.cur)
@@ -493,11 +496,31 @@ class ExprMixin:
         return None
 
     # ------------------------------------------------------------ containers
+    def _display_items(self, node, st):
+        """items of a tuple / list display; `*seq` contributes the items of a known sequence or the fields of a record"""
+        out = []
+        for e in node.elts:
+            if isinstance(e, ast.Starred):
+                v = self.eval(e.value, st)
+                if isinstance(v, Tup):
+                    out.extend(v.items)
+                    continue
+                if isinstance(v, Poly) and v.single_atom() is not None:
+                    from .interp import RECORD_FIELDS
+                    fields = RECORD_FIELDS.get(v.single_atom())
+                    if fields and all(nf.attr(v, f_).single_atom() in st.heap for f_ in fields):
+                        out.extend(st.heap[nf.attr(v, f_).single_atom()] for f_ in fields)
+                        continue
+                out.append(app('starred', P(v)))
+                continue
+            out.append(self.eval(e, st))
+        return out
+
     def e_Tuple(self, node, st):
-        return Tup([self.eval(e, st) for e in node.elts], 'tuple')
+        return Tup(self._display_items(node, st), 'tuple')
 
     def e_List(self, node, st):
-        return Tup([self.eval(e, st) for e in node.elts], 'list')
+        return Tup(self._display_items(node, st), 'list')
 
     def e_Set(self, node, st):
         return Tup([self.eval(e, st) for e in node.elts], 'tuple')
@@ -709,6 +732,18 @@ class ExprMixin:
             from .interp import NT_FIELDS
             if name in NT_FIELDS.get(base.key, ()):
                 return base.items[NT_FIELDS[base.key].index(name)]
+            if base.key not in NT_FIELDS and name not in ('shape', 'size', 'ndim', 'T', 'dtype', 'real', 'imag'):
+                # a namedtuple whose items were rewritten since it was built (an element of a comprehension): the field is
+                # found through the class - when exactly one namedtuple class of the package has it at this length
+                from .interp import namedtuple_fields
+                cands = set()
+                for m_ in self.repo.modules.values():
+                    for cn in list(getattr(m_, 'classes', {})) + [g_ for g_ in getattr(m_, 'globals', {})]:
+                        fl = namedtuple_fields(m_, cn)
+                        if fl and name in fl and len(fl) == len(base):
+                            cands.add(tuple(fl))
+                if len(cands) == 1:
+                    return base.items[list(cands)[0].index(name)]
             if name == 'shape':
                 return Tup([Poly.const(len(base))])
             if name == 'size':
